@@ -20,14 +20,14 @@ def newPl (d : Nat) (pl : Option Nat) (c : BidiClass) : Option Nat :=
   | R | AL => if d = 0 ∧ pl = none then some 1 else pl
   | _ => pl
 
-theorem iiStep_B (ds : DataSource) (enc : Enc) (st : IIState) (s : Seg) (h : ds.cls s.cp = B) :
-    let st' := iiStep ds enc true none st s
-    st'.paras = st.paras ++ [{ start := st.paraStart, stop := s.start + enc.charLen s.cp, level := st.paraLevel.getD 0 }] ∧
-    st'.paraStart = s.start + enc.charLen s.cp ∧ st'.paraLevel = none ∧ st'.stack = [] := by
+theorem iiStep_B (ds : DataSource) (T : Text) (st : IIState) (s : Seg) (h : ds.cls s.cp = B) :
+    let st' := iiStep ds T true none st s
+    st'.paras = st.paras ++ [{ start := st.paraStart, stop := s.start + T.enc.charLen s.cp, level := st.paraLevel.getD 0 }] ∧
+    st'.paraStart = s.start + T.enc.charLen s.cp ∧ st'.paraLevel = none ∧ st'.stack = [] := by
   simp [iiStep, h]
 
-theorem iiStep_nonB (ds : DataSource) (enc : Enc) (st : IIState) (s : Seg) (h : ds.cls s.cp ≠ B) :
-    let st' := iiStep ds enc true none st s
+theorem iiStep_nonB (ds : DataSource) (T : Text) (st : IIState) (s : Seg) (h : ds.cls s.cp ≠ B) :
+    let st' := iiStep ds T true none st s
     st'.paras = st.paras ∧ st'.paraStart = st.paraStart ∧
     st'.paraLevel = newPl st.stack.length st.paraLevel (ds.cls s.cp) ∧
     st'.stack.length = newDepth st.stack.length (ds.cls s.cp) := by
@@ -48,10 +48,10 @@ def lv : Nat → Option Nat → Bool → List BidiClass → List Nat
 def finalLevels (st : IIState) (e : Nat) : List Nat :=
   st.paras.map (·.level) ++ (if st.paraStart < e then [st.paraLevel.getD 0] else [])
 
-theorem fold_levels (ds : DataSource) (enc : Enc) (ss : List Seg) (st : IIState) (pos e : Nat)
-    (htile : SegsFrom pos ss e) (hlen : ∀ s ∈ ss, s.len = enc.charLen s.cp)
+theorem fold_levels (ds : DataSource) (T : Text) (ss : List Seg) (st : IIState) (pos e : Nat)
+    (htile : SegsFrom pos ss e) (hlen : ∀ s ∈ ss, s.len = T.enc.charLen s.cp)
     (hps : st.paraStart ≤ pos) :
-    finalLevels (ss.foldl (iiStep ds enc true none) st) e =
+    finalLevels (ss.foldl (iiStep ds T true none) st) e =
       st.paras.map (·.level) ++
         lv st.stack.length st.paraLevel (decide (st.paraStart < pos)) (ss.map (fun s => ds.cls s.cp)) := by
   induction ss generalizing st pos with
@@ -61,15 +61,15 @@ theorem fold_levels (ds : DataSource) (enc : Enc) (ss : List Seg) (st : IIState)
     by_cases h : st.paraStart < pos <;> simp [lv, finalLevels, h]
   | cons s ss ih =>
     obtain ⟨hs, hpos, htl⟩ := htile
-    have hl : s.len = enc.charLen s.cp := hlen s (by simp)
-    have hlen' : ∀ s ∈ ss, s.len = enc.charLen s.cp := fun x hx => hlen x (by simp [hx])
+    have hl : s.len = T.enc.charLen s.cp := hlen s (by simp)
+    have hlen' : ∀ s ∈ ss, s.len = T.enc.charLen s.cp := fun x hx => hlen x (by simp [hx])
     simp only [List.foldl_cons, List.map_cons]
     by_cases hc : ds.cls s.cp = B
-    · obtain ⟨h1, h2, h3, h4⟩ := iiStep_B ds enc st s hc
-      rw [ih (iiStep ds enc true none st s) (pos + s.len) htl hlen' (by rw [h2]; omega), h1, h2, h3, h4]
+    · obtain ⟨h1, h2, h3, h4⟩ := iiStep_B ds T st s hc
+      rw [ih (iiStep ds T true none st s) (pos + s.len) htl hlen' (by rw [h2]; omega), h1, h2, h3, h4]
       simp [lv, hc, hs, hl]
-    · obtain ⟨h1, h2, h3, h4⟩ := iiStep_nonB ds enc st s hc
-      rw [ih (iiStep ds enc true none st s) (pos + s.len) htl hlen' (by rw [h2]; omega), h1, h2, h3, h4]
+    · obtain ⟨h1, h2, h3, h4⟩ := iiStep_nonB ds T st s hc
+      rw [ih (iiStep ds T true none st s) (pos + s.len) htl hlen' (by rw [h2]; omega), h1, h2, h3, h4]
       have : st.paraStart < pos + s.len := by omega
       simp [lv, hc, this]
 
@@ -151,9 +151,9 @@ theorem p2Dir_cases (p : List BidiClass) :
 theorem initial_levels (ds : DataSource) (t : Text) (hwf : t.WF) :
     (computeInitialInfo ds t none true).paras.map (·.level) =
       (paragraphsOf (rawClasses ds t)).map (Spec.paraLevel none) := by
-  have hf := fold_levels ds t.enc t.segs { paraLevel := none } 0 t.len hwf.tiles hwf.lens (by simp)
+  have hf := fold_levels ds t t.segs { paraLevel := none } 0 t.len hwf.tiles hwf.lens (by simp)
   have hl : (computeInitialInfo ds t none true).paras.map (·.level) =
-      finalLevels (t.segs.foldl (iiStep ds t.enc true none) { paraLevel := none }) t.len := by
+      finalLevels (t.segs.foldl (iiStep ds t true none) { paraLevel := none }) t.len := by
     simp only [computeInitialInfo, finalLevels, Bool.true_and]
     split <;> simp_all
   rw [hl, hf]
